@@ -2,6 +2,7 @@
 from .. import scriptprop
 
 ID = "C06"
+GEN = ["ListShapes.lean", "RingShapes.lean"]   # regenerated from the source on every run (tie 4B): kernels / call shapes / function shapes
 RULE = ("three-way lock-step histories (fork, standard library, Lean heap model + sequence spec) over 3 lists (one a never-initialised zero value) with element handles "
         "drawn from live, removed and foreign elements, PushBackList/PushFrontList incl. onto itself, Init; and ring histories with counts in -7..7 and multiples of the ring length, "
         "Link of same-ring and different-ring positions, Unlink, zero-value rings (incl. the FIRST call on a never-touched zero ring), Link(nil); non-trivial = at least 5 mutating operations")
